@@ -63,3 +63,23 @@ Definition drive_code (T: ty) (model: list (out (list (dval * nat)))) (n_under: 
   | None, IExhausted => if Nat.eqb (count_under model) n_under then 0 else 1
   | _, _ => 1
   end.
+
+(* malformed inputs: library errors compare by the coarse class that matters to the properties
+   (insufficient data vs anything else from the library); crashes compare by kind *)
+Definition err_class (e: err) : N :=
+  match e with
+  | EUnderrun | EEndOfStream => 1
+  | EMalformed | EConstraint | EUnicode | EUnsupported => 2
+  | ECrash IndexError => 10 | ECrash AttributeError => 11 | ECrash TypeError => 12 | ECrash ValueError => 13
+  | ECrash OverflowError => 14 | ECrash RecursionError => 15 | ECrash RuntimeError => 16 | ECrash KeyError => 17
+  | EUnclean => 20 | EUnmodelled => 21 | EOutOfFuel => 22
+  end.
+
+Definition mal_code (T: ty) (model: res (dval * bytes)) (impl: res (aval * bytes)) : N :=
+  match model, impl with
+  | Err EUnmodelled, _ => 2
+  | Ok (DV _ v, r), Ok (a, r') => if aval_eqb (norm_bad (abs T v)) (norm_bad a) && bytes_eqb r r' then 0 else 1
+  | Ok (_, r), Ok (ABad, r') => 0
+  | Err e, Err e' => if N.eqb (err_class e) (err_class e') then 0 else 1
+  | _, _ => 1
+  end.
